@@ -103,7 +103,7 @@ def run(sc):
             if pr: fails.append({'key': f"{name}/requeues={requeues}", 'config': {'serializer': name, 'requeues': requeues}, 'failed_clauses': sorted(set(pr))[:12]})
     pr = asyncio.run(no_leak()); n += 1
     if pr: fails.append({'key': 'no-leak', 'config': 'kicker()/with_labels()/with_task_id()/with_broker() on one task', 'failed_clauses': pr})
-    return {'reproduced': bool(fails), 'runs': n, 'n_failures': len(fails), 'failures': fails[:8]}
+    return {'reproduced': bool(fails), 'runs': n, 'n_failures': len(fails), 'failures': fails[:400]}
 
 if __name__ == '__main__':
     sc = json.load(open(sys.argv[1])) if len(sys.argv) > 1 else {}
